@@ -79,7 +79,16 @@ def check_writer(cfg):
     try:
         prt = PhysRec.PhysRecTail(hasRecNum=bool(tr[0]), fileNum=cfg.get('filenum', 7) if tr[1] else None, hasCheckSum=bool(tr[2]))
         fw = File.FileWrite(out, 'x', keepGoing=False, hasTif=cfg['tif'] == 'normal', thePrLen=cfg['maxlen'], thePrt=prt)
-        tells = [fw.write(r) for r in recs]
+        tells = []
+        for i, r in enumerate(recs):
+            if i == len(recs) // 2:
+                # a write the writer refuses (text where bytes are wanted; the caller catches the error and carries on) leaves
+                # nothing behind: the records written after it land where they would have landed without it
+                try:
+                    fw.write('not bytes, refused')
+                except TypeError:
+                    pass
+            tells.append(fw.write(r))
         fw._prh.tif and fw._prh.tif.close(fw._prh.stream)   # EOF markers as close() writes them; keep the BytesIO open
         got = out.getvalue()
     except Exception as err:  # noqa
